@@ -163,7 +163,16 @@ pub fn run_input<K: Kmer + Send + Sync + serde::Serialize + serde::de::Deseriali
                 continue;
             }
             let p = r.range(1, 3);
-            let cens: Vec<usize> = (0..g.len()).filter(|_| r.chance(p, 6)).collect();
+            let mut cens: Vec<usize> = (0..g.len()).filter(|_| r.chance(p, 6)).collect();
+            // the censor list is a plain Vec: any order, repeats allowed
+            if r.chance(1, 2) {
+                r.shuffle(&mut cens);
+                if !cens.is_empty() && r.chance(1, 2) {
+                    let x = *r.pick(&cens);
+                    let at = r.below(cens.len() + 1);
+                    cens.insert(at, x);
+                }
+            }
             ev_recompress::<K>(sink, inp, g, &cens, tag);
         }
         // tip cleaning: CleanGraph::find_bad_nodes as the censor set
@@ -186,7 +195,10 @@ pub fn run_input<K: Kmer + Send + Sync + serde::Serialize + serde::de::Deseriali
         }
         if let Some(a) = again {
             if r.chance(1, 3) && !a.is_empty() {
-                let cens: Vec<usize> = (0..a.len()).filter(|_| r.chance(1, 4)).collect();
+                let mut cens: Vec<usize> = (0..a.len()).filter(|_| r.chance(1, 4)).collect();
+                if r.chance(1, 2) {
+                    cens.reverse();
+                }
                 ev_recompress::<K>(sink, inp, &a, &cens, "second-round/censor");
             }
         }
